@@ -16,5 +16,6 @@ theorem flag_openCleansOnCasFailure : openCleansOnCasFailure = true := by decide
 /-- `readChunk` releases the chunk read latch and the collection lock by `defer`: an error returned by the
     writer callback cannot leak them -/
 theorem flag_snapReadLocked : snapReadLocked = true := by decide +kernel
+theorem flag_compressorsClosed : compressorsClosed = true := by decide +kernel
 
 end ColumnVerif.Props.C14skel
